@@ -140,6 +140,8 @@ func (app *Application) onRuntimeCommitteeChanged(
 		return nil
 	}
 
+	consensusGoverned := rt.GovernanceModel == registry.GovernanceConsensus
+
 	registry := registryState.NewMutableState(ctx.State())
 	roothash := roothashState.NewMutableState(ctx.State())
 	scheduler := schedulerState.NewImmutableState(ctx.State())
@@ -179,6 +181,9 @@ func (app *Application) onRuntimeCommitteeChanged(
 		suspend = true
 	case params.DebugDoNotSuspendRuntimes, params.DebugBypassStake:
 		// If the debug flag is set, do not suspend the runtime.
+	case consensusGoverned:
+		// Runtimes with consensus-layer governance have no account that would
+		// hold the stake claims, so there is nothing to check.
 	default:
 		// Also suspend the runtime in case the registering entity no longer
 		// has enough stake to cover the entity and runtime deposits.
